@@ -1,4 +1,9 @@
 //! Instrumented ref-counted pointer used as the pointee handle in concurrent scenarios.
+//!
+//! One atomic cell per object carries the whole oracle: the object is alive iff `count != 0`;
+//! `inc`/`dec`/deref of an object whose count is 0 is a use-after-free (or a double release) and
+//! trips a `verif_assert`. All operations are branch-free so that they do not fork the symbolic
+//! execution. Orderings mirror `Arc` (Relaxed increment, Release decrement + Acquire fence).
 use arc_swap::RefCnt;
 use core::cell::UnsafeCell;
 use core::sync::atomic::{fence, Ordering::*};
@@ -10,19 +15,12 @@ pub const POOL: usize = 4;
 #[repr(C)]
 pub struct Obj {
     pub count: HAtomic,
-    pub alive: HAtomic,
-    pub destroyed: HAtomic,
     pub payload: UnsafeCell<u64>,
 }
 unsafe impl Sync for Obj {}
 
 #[allow(clippy::declare_interior_mutable_const)]
-const OBJ0: Obj = Obj {
-    count: HAtomic::new(0),
-    alive: HAtomic::new(0),
-    destroyed: HAtomic::new(0),
-    payload: UnsafeCell::new(0),
-};
+const OBJ0: Obj = Obj { count: HAtomic::new(0), payload: UnsafeCell::new(0) };
 pub static OBJS: [Obj; POOL] = [OBJ0; POOL];
 
 /// Assertion ids (100..) used by the oracle of the instrumented pointer.
@@ -30,8 +28,6 @@ pub const A_INC_ALIVE: u32 = 101;
 pub const A_DEC_ALIVE: u32 = 102;
 pub const A_DEREF_ALIVE: u32 = 103;
 pub const A_CREATE_FRESH: u32 = 104;
-pub const A_PAYLOAD: u32 = 105;
-pub const A_DEC_POS: u32 = 106;
 
 pub struct VPtr(*const Obj);
 unsafe impl Send for VPtr {}
@@ -41,36 +37,42 @@ impl VPtr {
     /// Bring pool object `i` to life with one reference and the given payload.
     pub fn create(i: usize, payload: u64) -> VPtr {
         let o = &OBJS[i];
-        vassert(o.alive.load(Relaxed) == 0, A_CREATE_FRESH);
+        vassert(o.count.peek() == 0, A_CREATE_FRESH);
         unsafe { *o.payload.get() = payload };
         o.count.store(1, Relaxed);
-        o.alive.store(1, Relaxed);
         VPtr(o)
     }
     #[inline]
     pub fn obj(&self) -> &Obj {
         unsafe { &*self.0 }
     }
+    #[inline]
     pub fn idx(&self) -> usize {
         (self.0 as usize - OBJS.as_ptr() as usize) / core::mem::size_of::<Obj>()
     }
+    #[inline]
     pub fn raw(&self) -> *const Obj {
         self.0
     }
-    /// Read the payload through the handle (a non-atomic access) checking it is alive.
+    /// Read the payload through the handle (a non-atomic access) checking the object is alive.
+    #[inline]
     pub fn read(&self) -> u64 {
         let o = self.obj();
-        vassert(o.alive.load(Relaxed) == 1, A_DEREF_ALIVE);
+        vassert(o.count.load(Relaxed) != 0, A_DEREF_ALIVE);
         unsafe { *o.payload.get() }
     }
+}
+
+/// Count of pool object `i` (ungated; for oracles at quiescent points).
+pub fn count_of(i: usize) -> usize {
+    OBJS[i].count.peek()
 }
 
 impl Clone for VPtr {
     #[inline]
     fn clone(&self) -> VPtr {
-        let o = self.obj();
-        vassert(o.alive.load(Relaxed) == 1, A_INC_ALIVE);
-        o.count.fetch_add(1, Relaxed);
+        let prev = self.obj().count.fetch_add(1, Relaxed);
+        vassert(prev != 0, A_INC_ALIVE);
         VPtr(self.0)
     }
 }
@@ -78,17 +80,9 @@ impl Clone for VPtr {
 impl Drop for VPtr {
     #[inline]
     fn drop(&mut self) {
-        let o = self.obj();
-        vassert(o.alive.load(Relaxed) == 1, A_DEC_ALIVE);
-        let prev = o.count.fetch_sub(1, Release);
-        vassert(prev != 0, A_DEC_POS);
-        if prev == 1 {
-            fence(Acquire);
-            // destructor: scribble over the payload (a non-atomic write), mark dead
-            unsafe { *o.payload.get() = 0xdead };
-            o.alive.store(0, Relaxed);
-            o.destroyed.fetch_add(1, Relaxed);
-        }
+        let prev = self.obj().count.fetch_sub(1, Release);
+        vassert(prev != 0, A_DEC_ALIVE);
+        fence(Acquire);
     }
 }
 
